@@ -4,14 +4,33 @@ import fcntl, glob, hashlib, json, os, re, subprocess, sys, time
 
 VERIF = os.path.dirname(os.path.dirname(os.path.abspath(__file__)))
 REPO = os.environ.get("VERIF_REPO", "/repo")
-CACHE = os.path.join(VERIF, ".cache")
-COQ = os.path.join(VERIF, "coq")
+MAIN_CACHE = os.path.join(VERIF, ".cache")
+# VERIF_REPO=<scratch copy of /repo>: mutation testing in isolation. Everything that depends on the
+# repository (generated constants, .vo files, extracted model, harness build, evidence, replays) then
+# lives under .cache/alt-<hash>/ and nothing shared is touched.
+ALT = os.path.realpath(REPO) != "/repo"
+ALT_DIR = os.path.join(MAIN_CACHE, "alt-" + hashlib.sha256(os.path.realpath(REPO).encode()).hexdigest()[:8])
+CACHE = ALT_DIR if ALT else MAIN_CACHE
+COQ_SRC = os.path.join(VERIF, "coq")
+COQ = os.path.join(ALT_DIR, "coq") if ALT else COQ_SRC
+OUT = ALT_DIR if ALT else VERIF          # evidence/ and replays/ live here
 EXTRACT = os.path.join(VERIF, "extract")
-HARNESS = os.path.join(VERIF, "harness")
+HARNESS_SRC = os.path.join(VERIF, "harness")
+HARNESS = os.path.join(ALT_DIR, "harness") if ALT else HARNESS_SRC
 TARGET = os.path.join(CACHE, "target")
 HARNESS_BIN = os.path.join(TARGET, "debug", "anytls-verif")
 HARNESS_BIN_REL = os.path.join(TARGET, "release", "anytls-verif")
 MODEL_BIN = os.path.join(CACHE, "extract", "model_run")
+
+
+def prepare_alt():
+    """mirror coq/ (with compiled files, keeping mtimes) into the alt dir"""
+    if not ALT:
+        return
+    os.makedirs(ALT_DIR, exist_ok=True)
+    subprocess.run(["rsync", "-a", "--delete", "--exclude", "Gen/Generated.v", "--exclude", "Gen/Generated.vo",
+                    "--exclude", "Gen/Generated.glob", "--exclude", "Gen/.Generated.aux",
+                    COQ_SRC + "/", COQ + "/"], check=False)
 GUARD = "anytls_rs_verif"
 
 ALLOWED_AXIOMS = set()   # every pinned theorem must be "Closed under the global context"
@@ -64,7 +83,10 @@ def run(cmd, cwd=None, timeout=1800, env=None, inp=None):
 
 # ----------------------------------------------------------------------------- builds
 def gen_constants():
-    rc, out, err, _ = run([sys.executable, os.path.join(VERIF, "tools", "gen_constants.py")])
+    prepare_alt()
+    e = dict(os.environ)
+    e["VERIF_GEN_OUT"] = os.path.join(COQ, "Gen", "Generated.v")
+    rc, out, err, _ = run([sys.executable, os.path.join(VERIF, "tools", "gen_constants.py")], env=e)
     try:
         return json.loads(out.strip().splitlines()[-1])["problems"]
     except Exception:
@@ -156,7 +178,24 @@ def build_model():
     return True, "built"
 
 
+def _prepare_alt_harness():
+    """copy harness/ to .cache/alt/harness with the path dependency pointing at VERIF_REPO"""
+    import shutil
+    os.makedirs(os.path.dirname(HARNESS), exist_ok=True)
+    if os.path.exists(HARNESS):
+        shutil.rmtree(HARNESS)
+    shutil.copytree(HARNESS_SRC, HARNESS, ignore=shutil.ignore_patterns("target"))
+    ct = os.path.join(HARNESS, "Cargo.toml")
+    txt = open(ct).read().replace('path = "/repo"', 'path = "%s"' % REPO)
+    open(ct, "w").write(txt)
+    if not os.path.exists(TARGET) and os.path.exists(os.path.join(MAIN_CACHE, "target")):
+        # reuse the compiled dependencies of the main target dir
+        subprocess.run(["cp", "-a", "--reflink=auto", os.path.join(MAIN_CACHE, "target"), TARGET])
+
+
 def build_harness(release=False):
+    if ALT:
+        _prepare_alt_harness()
     lock_src = os.path.join(REPO, "Cargo.lock")
     lock_dst = os.path.join(HARNESS, "Cargo.lock")
     # keep a copy of /repo's Cargo.lock (refreshed when /repo's changes) so resolution works offline
